@@ -138,11 +138,12 @@ CLAIMED = {
     technique="labelled transition system + inductive invariants in Coq; trace acceptance of real schedules under a deterministic scheduler"),
  "C02": dict(category="proof", design_ref="7 (C02)",
     text="PARTIAL. Proved in Coq (all closed): one hop over a connection leaves payload, source object and destination object untouched and rewrites exactly the two context names; a reply "
-         "returns to the very future that issued the request; generated future addresses are pairwise distinct; under any number of concurrent callers in either placement a future holds "
+         "returns to the very future that issued the request; generated future addresses are pairwise distinct; after any history of client contexts connecting and disconnecting the aliases of live incoming connections are pairwise distinct, "
+         "never re-used, and a reply addressed to an alias is written to the connection that was given it (tied to the real _SocketManager); under any number of concurrent callers in either placement a future holds "
          "what executing ITS OWN request yields (corollary of the C01 model). Value fidelity of pickling is an assumed law (hypothesis), tested not proved: generated scalars, bytes, nested "
          "containers, numpy arrays/scalars, named tuples, enums, exceptions pushed through direct call / local proxy / remote proxy x blocking / non-blocking must come back equal in type and "
-         "value; concurrent callers with distinguishable arguments under seeded schedules each get their own outcome. Tie of the hop model: two real _PeerTcpConnection objects, names from a "
-         "small pool incl. forged source/destination.",
+         "value; concurrent callers with distinguishable arguments under seeded schedules each get their own outcome. Tie of the hop model: two real _PeerTcpConnection objects, names from a small pool incl. forged source/destination; "
+         "clients connecting / disconnecting / reconnecting while others call (real contexts under dsched).",
     note="Trusted: Coq kernel+vm_compute; CPython pickle (assumed law); dsched + fake network; rpc_timeout is a documented reserved keyword of the blocking proxy and is not forwarded.",
     technique="record-level Coq lemmas + corollary of the RPC transition system; differential direct/local/remote testing"),
  "C03": dict(category="proof", design_ref="7 (C03)",
